@@ -129,7 +129,7 @@ def _mi(name, policy, tasks, workers, steps, horizon, salt=0, **kw):
     return inst
 
 
-def replan_scenario(policy, d_a, du, hopeless, workers, steps=(3, 4)):
+def replan_scenario(policy, d_a, du, hopeless, workers, steps=(3, 4), retract=False):
     """A1 takes the worker first, A2 (deadline d_a) is planned behind it; before the second invocation an urgent
     task U (deadline = now2 + its runtime + du), optionally a hopeless H and a loose L arrive.  A2, still SCHEDULED,
     is planned again together with them."""
@@ -142,8 +142,12 @@ def replan_scenario(policy, d_a, du, hopeless, workers, steps=(3, 4)):
     if hopeless:
         tasks.append(mk_task([], S1L, deadline=now2 + 2, graph="H", phase=len(steps), rel_at=now2))
         tasks.append(mk_task([], S2E, deadline=now2 + 20, graph="L", phase=len(steps), rel_at=now2))
-    name = f"{policy}/mi-replan/a{d_a}/u{du}{'/hopeless' if hopeless else ''}/w{'+'.join(map(str, workers))}/t{'-'.join(map(str, steps))}"
-    return _mi(name, policy, tasks, workers, steps, horizon=steps[0] + (8 if hopeless else 10))
+    name = (f"{policy}/mi-replan/a{d_a}/u{du}{'/hopeless' if hopeless else ''}/w{'+'.join(map(str, workers))}/t{'-'.join(map(str, steps))}"
+            f"{'/retract' if retract else ''}")
+    inst = _mi(name, policy, tasks, workers, steps, horizon=steps[0] + (8 if hopeless else 10))
+    # retract_schedules: the SCHEDULED task is offered again and may be left unplaced or planned again
+    inst["opts"]["retract"] = retract
+    return inst
 
 
 def batch_scenario(policy, d_t, du, tight_first, blocker, strats, salt, steps):
@@ -195,6 +199,7 @@ def directed_scenarios():
             out.append(replan_scenario(policy, d_a, 0, False, [1, 1]))
             out.append(replan_scenario(policy, d_a, 1, False, [1], steps=(3, 3)))
             out.append(replan_scenario(policy, d_a, 0, True, [1], steps=(3, 4, 5)))
+            out.append(replan_scenario(policy, d_a, 1, d_a % 2 == 0, [1], retract=True))
     for policy in MI_BATCHING:
         for strats in (PB2, PB12):
             for blocker in (False, True):
